@@ -43,6 +43,8 @@ func variantByName(world, name string) (Variant, bool) {
 		return simrunAsmRaceBuild, true
 	case simrun386.Name:
 		return simrun386, true
+	case simrunGo126.Name:
+		return simrunGo126, true
 	case "asm-go1.26":
 		return simStall, true
 	}
